@@ -411,6 +411,32 @@ def _stores_to(idx: ProgramIndex, cls: ClassInfo, attr: str) -> int:
 GETSTATE_DROPPABLE = {"distance_module": "torch.jit ScriptModule used only as a lazily rebuilt distance helper"}
 
 
+def _enclosing_tests(fn: ast.AST, target: ast.AST) -> List[ast.AST]:
+    """tests of the If statements whose *body* encloses target"""
+    out: List[ast.AST] = []
+
+    def rec(stmts, acc) -> bool:
+        for st in stmts:
+            if any(x is target for x in ast.walk(st)):
+                if isinstance(st, ast.If):
+                    if any(any(x is target for x in ast.walk(b)) for b in st.body):
+                        return rec(st.body, acc + [st.test])
+                    if any(any(x is target for x in ast.walk(b)) for b in st.orelse):
+                        return rec(st.orelse, acc + [ast.UnaryOp(op=ast.Not(), operand=st.test)])
+                    out.extend(acc)
+                    return True
+                for fld in ("body", "orelse", "finalbody"):
+                    sub = getattr(st, fld, None)
+                    if isinstance(sub, list) and sub and isinstance(sub[0], ast.stmt) and any(any(x is target for x in ast.walk(b)) for b in sub):
+                        return rec(sub, acc)
+                out.extend(acc)
+                return True
+        return False
+
+    rec(fn.body, [])
+    return out
+
+
 def pickling(idx: ProgramIndex, rep: Report):
     n = 0
     for cls in idx.package_classes():
@@ -434,6 +460,40 @@ def pickling(idx: ProgramIndex, rep: Report):
             rep.add("C18-4", "%s:%s.__getstate__" % (cls.module.name, cls.qualname), gs.where, ok_ret and not bad,
                     "pickled state is the full __dict__ minus %s" % sorted(dropped) if ok_ret and not bad else
                     "__getstate__ drops %s from the pickled state (only caches may be dropped)" % bad if bad else "__getstate__ does not return the instance dictionary", {"dropped": sorted(dropped)})
+        ss = cls.methods.get("__setstate__")
+        if ss is not None:
+            n += 1
+            sn, dp = ss.params[0], (ss.params[1] if len(ss.params) > 1 else None)
+            # (a) the pickled dictionary is restored as a whole
+            restores = any(isinstance(a, ast.Assign) and any(chain(t) == "%s.__dict__" % sn for t in a.targets) and isinstance(a.value, ast.Name) and a.value.id == dp for a in ast.walk(ss.node)) \
+                or any(isinstance(c, ast.Call) and chain(c.func) in ("%s.__dict__.update" % sn, "super().__setstate__") for c in ast.walk(ss.node))
+            probs_ss = [] if restores else ["the pickled state is not restored as a whole (`self.__dict__ = state` / update / super().__setstate__)"]
+            # (b) nothing that was restored is overwritten afterwards: a (re-)registration or attribute store in __setstate__ must be
+            #     conditional on the name being absent, or on the value it writes being present (legacy-format hooks)
+            for node in ast.walk(ss.node):
+                written = None
+                val = None
+                if isinstance(node, ast.Call) and isinstance(node.func, ast.Attribute) and node.func.attr in ("register_buffer", "register_parameter", "__setattr__", "add_module") and chain(node.func.value) == sn and node.args:
+                    written, val = const_str(node.args[0]) or src(node.args[0]), (node.args[1] if len(node.args) > 1 else None)
+                elif isinstance(node, ast.Call) and chain(node.func) == "setattr" and len(node.args) == 3 and src(node.args[0]) == sn:
+                    written, val = const_str(node.args[1]) or src(node.args[1]), node.args[2]
+                elif isinstance(node, ast.Assign) and any(isinstance(t, ast.Attribute) and chain(t.value) == sn and t.attr != "__dict__" for t in node.targets):
+                    written, val = [t.attr for t in node.targets if isinstance(t, ast.Attribute)][0], node.value
+                if written is None:
+                    continue
+                guards = _enclosing_tests(ss.node, node)
+                vname = val.id if isinstance(val, ast.Name) else None
+                safe = False
+                for g in guards:
+                    t = " ".join(src(g).split())
+                    if ("'%s' not in" % written in t.replace('"', "'")) or ("not hasattr(%s, '%s')" % (sn, written) in t.replace('"', "'")):
+                        safe = True
+                    if vname and ("%s is not None" % vname) in t and not t.startswith("not "):
+                        safe = True
+                if not safe:
+                    probs_ss.append("`%s` is written unconditionally after the state was restored: the restored value is overwritten on every unpickling / deep copy" % written)
+            rep.add("C18-4", "%s:%s.__setstate__" % (cls.module.name, cls.qualname), ss.where, not probs_ss,
+                    "restores the pickled dictionary as a whole and overwrites nothing of it" if not probs_ss else "; ".join(sorted(set(probs_ss))), {})
         dc = cls.methods.get("__deepcopy__")
         if dc is not None:
             n += 1
